@@ -132,7 +132,8 @@ Lemma cc_blocks_later : forall angles ibs i,
 Proof.
   intros angles ibs. induction ibs as [|[id b] r IH]; intros i.
   - cbn. rewrite Nat.add_0_r. reflexivity.
-  - cbn [cc_blocks filter negb]. rewrite andb_true_r. unfold non_initial at 1 3. cbn [snd].
+  - cbn [cc_blocks filter negb]. rewrite andb_true_r.
+    replace (non_initial (id, b)) with (negb (b_initial b)) by reflexivity.
     destruct (b_initial b) eqn:Hi; cbn [negb].
     + apply IH.
     + cbn [flat_gates]. rewrite sum_params_cons. cbn [snd].
@@ -410,7 +411,7 @@ Section Alg.
       destruct na; [discriminate|].
       change (n_params (mkBlock (KNative false) ini)) with 0 in *.
       cbn [is_native b_kind mapM Vqa.gate_prop].
-      rewrite Nat.add_0_r in IH. rewrite Nat.add_0_r.
+      rewrite Nat.add_0_r.
       rewrite IH by (auto; lia). reflexivity.
   Qed.
 
@@ -524,8 +525,10 @@ Section Alg.
       intros pre id b post Hser. unfold Vqa.block_entries.
       rewrite (jac_terms_ok pre id b post Hser) by (intros t Ht; apply in_seq in Ht; lia).
       f_equal.
-      rewrite <- (Nat.add_0_r (sum_params pre)) at 3.
-      rewrite <- map_add_seq. rewrite filter_map_comm, map_map. reflexivity.
+      replace (seq (sum_params pre) (n_params b))
+        with (map (Nat.add (sum_params pre)) (seq 0 (n_params b)))
+        by (rewrite map_add_seq; f_equal; lia).
+      rewrite filter_map_comm, map_map. reflexivity.
     Qed.
 
     Lemma jac_loop_ok : forall post pre,
@@ -621,3 +624,77 @@ Section Alg.
     rewrite seq_nth by exact Hj. reflexivity.
   Qed.
 End Alg.
+
+(* ------------------------------------------------------------------------------------------- *)
+(* the unchanged code agrees with the fixed code exactly when no block has more than one         *)
+(* parameter (this delimits the defect class of compute_jac_orig)                                *)
+(* ------------------------------------------------------------------------------------------- *)
+Section Orig.
+  Variable A : Type.
+  Variables (one : A) (add mul : A -> A -> A) (dag : A -> A).
+  Variable Sc : Type.
+  Variable ev : A -> Sc.
+  Variable obs : A.
+  Variable blockU : nat -> list nat -> A.
+  Variable fixedU : nat -> A.
+  Variable blockdU : nat -> list nat -> nat -> A.
+
+  Lemma jac_loop_ext : forall (e1 e2 : nat -> block -> nat -> nat -> nat -> option (list Sc)) series k i,
+      (forall id b k i, In (id, b) series -> 0 < n_params b ->
+                        e1 id b k i (n_params b) = e2 id b k i (n_params b)) ->
+      jac_loop Sc e1 series k i = jac_loop Sc e2 series k i.
+  Proof.
+    intros e1 e2 series. induction series as [|[id b] r IH]; intros k i H; [reflexivity|].
+    cbn [jac_loop].
+    assert (Hr : forall id b k i, In (id, b) r -> 0 < n_params b ->
+                                  e1 id b k i (n_params b) = e2 id b k i (n_params b))
+      by (intros; apply H; [right|]; assumption).
+    destruct (0 <? n_params b) eqn:E.
+    - apply Nat.ltb_lt in E. rewrite (H id b k i (or_introl eq_refl) E).
+      rewrite (IH _ _ Hr). reflexivity.
+    - apply IH. exact Hr.
+  Qed.
+
+  Definition single_param (b : block) : bool := n_params b <=? 1.
+
+  Theorem orig_eq_fixed_single : forall bs layers angles indices,
+      forallb single_param bs = true ->
+      compute_jac_orig A one add mul dag Sc ev obs blockU fixedU blockdU bs layers angles indices
+      = compute_jac A one add mul dag Sc ev obs blockU fixedU blockdU bs layers angles indices.
+  Proof.
+    intros bs layers angles indices Hs.
+    unfold compute_jac_orig, compute_jac, compute_jac_with.
+    destruct (propagators A blockU fixedU bs layers angles) as [props|]; [|reflexivity].
+    apply jac_loop_ext. intros id b k i Hin Hpos.
+    assert (Hb : single_param b = true).
+    { assert (Hin' : In b bs).
+      { unfold block_series in Hin. apply in_app_or in Hin. destruct Hin as [Hin|Hin].
+        - unfold iblocks in Hin. apply in_combine_r in Hin. exact Hin.
+        - apply in_concat in Hin. destruct Hin as [l [Hl Hin]]. apply repeat_spec in Hl. subst l.
+          apply filter_In in Hin. destruct Hin as [Hin _]. unfold iblocks in Hin.
+          apply in_combine_r in Hin. exact Hin. }
+      rewrite forallb_forall in Hs. apply Hs. exact Hin'. }
+    unfold single_param in Hb. apply Nat.leb_le in Hb.
+    assert (E1 : n_params b = 1) by lia. rewrite E1.
+    unfold block_entries_orig, block_entries. cbn [seq jac_terms]. rewrite Nat.add_0_r.
+    destruct (mem i _); [|reflexivity].
+    destruct (get_unitary_derivative A blockdU id b _ 0); [|reflexivity].
+    destruct (modify_unitary A mul _ _ _ k a); reflexivity.
+  Qed.
+
+  (* ... and it is wrong as soon as a block has two parameters: the gradient is too short, and a
+     requested index that is not the first index of its block is silently dropped *)
+  Definition two_param_block : list block := [mkBlock (KPH 2) false].
+
+  Lemma orig_length_refuted :
+    exists g, compute_jac_orig A one add mul dag Sc ev obs blockU fixedU blockdU
+                               two_param_block 1 (seq 0 (free_parameters_num two_param_block 1)) None
+              = Some g /\ length g = 1 /\ free_parameters_num two_param_block 1 = 2.
+  Proof. eexists. split; [vm_compute; reflexivity|]. split; reflexivity. Qed.
+
+  Lemma orig_subset_refuted :
+    compute_jac_orig A one add mul dag Sc ev obs blockU fixedU blockdU
+                     two_param_block 1 (seq 0 (free_parameters_num two_param_block 1)) (Some [1])
+    = Some [].
+  Proof. vm_compute. reflexivity. Qed.
+End Orig.
